@@ -130,6 +130,9 @@ func (s *c44Store) DownloadSegment(ctx context.Context, key string, rng *storage
 		c.Rng, c.Has = [2]int64{rng.Start, rng.End}, true
 	}
 	s.log = append(s.log, c)
+	if err := ctx.Err(); err != nil {
+		return nil, err // like the S3 SDK: a request on a cancelled / expired context fails
+	}
 	if s.readErr[key] {
 		return nil, s.errf("DownloadSegment", key)
 	}
@@ -138,6 +141,9 @@ func (s *c44Store) DownloadSegment(ctx context.Context, key string, rng *storage
 
 func (s *c44Store) DownloadIndex(ctx context.Context, key string) ([]byte, error) {
 	s.log = append(s.log, c44Call{Op: "DownloadIndex", Key: key})
+	if err := ctx.Err(); err != nil {
+		return nil, err
+	}
 	if s.readErr[key] {
 		return nil, s.errf("DownloadIndex", key)
 	}
@@ -523,11 +529,16 @@ type c44Found struct {
 func TestVerifC44(t *testing.T) {
 	rep := vh.New(t, "C44")
 	defer rep.Finish()
-	rep.Rule = "case = initial state of 3 objects (segment, its index, a second segment), each primary in {present, missing, present-but-reads-fail} x replica in {same bytes, missing, error, stale same-length bytes, short prefix, longer stale bytes}, x a history of operations through the real dualS3Client (reads: full / ranged segment, index; writes: upload/delete segment/index, list, ensure-bucket, each also with the primary failing). Depth 1 uses every inclusive range [s,e] with 0<=s<=10, s<=e<=13 over the 8-byte object; deeper histories use 4 ranges. Every op is mirrored on a shadow copy of the primary alone. Non-trivial = some read hit a replica that is missing, answers with an error (outage or range it cannot satisfy) or holds different bytes, or a write/list ran with the primary failing."
+	rep.Rule = "case = initial state of 3 objects (segment, its index, a second segment), each primary in {present, missing, present-but-reads-fail} x replica in {same bytes, missing, error, stale same-length bytes, short prefix, longer stale bytes}, x a history of operations through the real dualS3Client (reads: full / ranged segment, index; writes: upload/delete segment/index, list, ensure-bucket, each also with the primary failing). Depth 1 uses every inclusive range [s,e] with 0<=s<=10, s<=e<=13 over the 8-byte object; deeper histories use 4 ranges. Every op is mirrored on a shadow copy of the primary alone. Plus the slow-replica section: a replica that answers a read only after 10 ms .. 31 s of virtual time (then with the same bytes, an error or not-found) x {full segment, ranged segment, index} read with a caller context without deadline. Non-trivial = some read hit a replica that is missing, answers with an error (outage or range it cannot satisfy) or holds different bytes, or a write/list ran with the primary failing."
 	rep.Assumptions = []string{
 		"both buckets are in-package fakes with S3 range semantics (inclusive, end clamped, start past the end is an error) and lexicographic listing",
 		"'what the primary would return' = the primary bucket's content for (key, range); a transient primary read error does not make a correct answer from an identical replica wrong",
 		"replica read failures and primary read failures are persistent per key within one history; primary write/list failures are per operation",
+	}
+	var sc c44SlowCase
+	if ok, err := vh.LoadReplay(&sc); ok && err == nil && sc.Slow {
+		c44RunSlow(t, rep, sc)
+		return
 	}
 	var rc c44Case
 	if ok, err := vh.LoadReplay(&rc); ok {
@@ -542,6 +553,13 @@ func TestVerifC44(t *testing.T) {
 			rep.Violation(p.Key, p.Detail, rc)
 		}
 		return
+	}
+	if sh, _ := vh.Shard(); sh == 0 {
+		slow := c44SlowCases()
+		rep.SetInfo("slow_replica_cases", len(slow))
+		for _, c := range slow {
+			c44RunSlow(t, rep, c)
+		}
 	}
 	depth := 2
 	if vh.Thorough() {
